@@ -20,5 +20,11 @@ R1 == {<<3, 4>>}
 
 EnvVariant == IF "VARIANT" \in DOMAIN IOEnv THEN IOEnv.VARIANT ELSE "code"
 
-Dump == PrintT(<<"EDGE", ToJson([from |-> View, to |-> View', op |-> out', lvl |-> TLCGet("level")])>>)
+\* what the property allows the operation to return (judged in TLA+, compared by the replay)
+Allowed ==
+  IF out'.op = "GetCellSize" THEN AllowedCells(basis', env', swap', queries')
+  ELSE IF out'.op = "GetRatio" /\ cr' = Nil THEN AllowedRatios(basis', env', swap', queries')
+  ELSE {}
+
+Dump == PrintT(<<"EDGE", ToJson([from |-> View, to |-> View', op |-> out', allowed |-> Allowed, lvl |-> TLCGet("level")])>>)
 =============================================================================
